@@ -692,7 +692,7 @@ def opCtxTypeId (inp : Json) : Except String Json := do
     verifies over that claim -/
 def opVerifyList (inp : Json) : Except String Json := do
   let kindOf (s : String) : Verify.ProofKind :=
-    if s == "BJJSignature2021" then .bjj else if s == "Iden3SparseMerkleTreeProof" then .smt else .other s
+    Verify.kindOfName s
   let wanted := kindOf (← jstr inp "wanted")
   let proofs ← (← (← inp.getObjVal? "proofs").getArr?).toList.mapM fun j => do
     pure (kindOf (← jstr j "type"), ((← (← j.getObjVal? "bound").getBool?), (← (← j.getObjVal? "valid").getBool?)))
